@@ -328,6 +328,36 @@ type AddrSliceThenMap struct {
 	D *HasPM
 }
 
+// the pointer-receiver marshaler sits one and two levels below the struct type that occurs both in
+// addressable and in non-addressable positions (by value in a nested struct, in an array, in both)
+type AddrDeepInner struct{ U PMStruct }
+
+type AddrDeepT struct {
+	In  AddrDeepInner
+	Arr [1]PMInt
+	N   struct{ X [2]AddrDeepInner }
+	T   PTString
+}
+
+type AddrDeepValThenPtr struct {
+	A AddrDeepT
+	B *AddrDeepT
+}
+
+type AddrDeepSliceThenVal struct {
+	L []AddrDeepT
+	A AddrDeepT
+	M map[string]AddrDeepT
+	P *AddrDeepT
+}
+
+type AddrDeepMapThenArr struct {
+	M map[string]AddrDeepT
+	R [1]AddrDeepT
+	I any
+	L []AddrDeepT
+}
+
 // embedded unexported non-struct type with a tag: ignored by encoding/json
 type unexpInt int
 
